@@ -36,9 +36,12 @@ def initial_pool():
     r3 = TR(repetitions=3, start_point=TP(year=2016, month_of_year=1, day_of_month=31), duration=DU(days=1))
     r4 = TR(duration=DU(months=1), end_point=TP(year=2016, month_of_year=3, day_of_month=31, time_zone_hour=1))
     r1 = TR(repetitions=2, start_point=TP(year=2015, week_of_year=53, day_of_week=7), end_point=TP(year=2016, day_of_year=10))
+    r3n = TR(repetitions=3, start_point=TP(year=2016, month_of_year=1, day_of_month=31), duration=DU(months=1))
+    t_dom = TP(truncated=True, day_of_month=5)            # date-only, zone unknown
+    t_wd = TP(truncated=True, day_of_week=3)
     return [("p_cal", p_cal), ("p_ord24", p_ord24), ("p_week", p_week), ("p_cal2", p_cal2), ("t_hour", t_hour),
             ("t_day", t_day), ("d_unit", d_unit), ("d_week", d_week), ("d_nom", d_nom), ("d_neg", d_neg),
-            ("d_empty", d_empty), ("z_known", z_known), ("z_unknown", z_unknown), ("r3", r3), ("r4", r4), ("r1", r1)]
+            ("d_empty", d_empty), ("z_known", z_known), ("z_unknown", z_unknown), ("r3", r3), ("r4", r4), ("r1", r1), ("r3n", r3n), ("t_dom", t_dom), ("t_wd", t_wd)]
 
 
 def kind_of(o):
@@ -94,6 +97,12 @@ OPS = [
     ("get_time_zone_utc", "P", lambda p: p.get_time_zone_utc()), ("properties", "P", _props),
     ("strftime", "P", lambda p: p.strftime("%Y-%m-%dT%H:%M:%S%z %j %s")),
     ("dump_week", "P", lambda p: impl.D.TIMEPOINT_DUMPER_MAP[0].dump(p, "CCYY-Www-DThh:mm:ss+01:00")),
+    ("add_truncated_dom", "P", lambda p: p.add_truncated(day_of_month=5)),
+    ("add_truncated_doy", "P", lambda p: p.add_truncated(day_of_year=100)),
+    ("add_truncated_wd", "P", lambda p: p.add_truncated(day_of_week=3)),
+    ("add_truncated_week", "P", lambda p: p.add_truncated(week_of_year=20)),
+    ("add_truncated_month", "P", lambda p: p.add_truncated(month_of_year=6)),
+    ("add_truncated_hm", "P", lambda p: p.add_truncated(hour_of_day=6, minute_of_hour=30)),
     ("add_months_0", "P", lambda p: p.add_months(0)), ("add_months_1", "P", lambda p: p.add_months(1)),
     ("add_months_-13", "P", lambda p: p.add_months(-13)), ("time_zone", "P", lambda p: p.time_zone),
     ("P+P", "PP", lambda a, b: a + b), ("P-P", "PP", lambda a, b: a - b), ("P==P", "PP", lambda a, b: a == b),
@@ -193,8 +202,24 @@ class Pool:
                 stack.append((n + ".sub", ch))
         return shared
 
-    def check(self, ctx, history, deep):
-        for n, x, snap, t, h in self.objs:
+    def reachable(self, operand_ix):
+        """Indices of the pool objects an operation on these operands can reach by reference (the operands and,
+        recursively, the library objects linked from them). Nothing else can be mutated by the call: there is no
+        registry of live values, so checking these after every event loses nothing (all objects are re-checked, with
+        string forms and hashes, at the end of every chain group)."""
+        seen, stack = set(), [self.objs[i][1] for i in operand_ix]
+        while stack:
+            x = stack.pop()
+            if id(x) in seen:
+                continue
+            seen.add(id(x))
+            stack.extend(children(x))
+        return [self.ids[i] for i in seen if i in self.ids]
+
+    def check(self, ctx, history, deep, only=None):
+        for k, (n, x, snap, t, h) in enumerate(self.objs):
+            if only is not None and k not in only:
+                continue
             now = impl.canon(x)
             if now != snap:
                 ctx.violation("operand_state_changed", {"object": n.split(".")[0][:12], "op": history[-1][0]},
@@ -283,7 +308,7 @@ def explore_from(ctx, oi, combo, depth):
                 before = len(pool.objs)
                 new2 = apply(ctx, pool, name2, fn2, combo2, h2)
                 ctx.traces += 1
-                if not pool.check(ctx, h2, deep=False):
+                if not pool.check(ctx, h2, deep=False, only=set(pool.reachable(combo2)) | set(range(before, len(pool.objs)))):
                     return
                 if depth >= 3 and new2:
                     third_ix = list(range(before, len(pool.objs)))
@@ -293,9 +318,10 @@ def explore_from(ctx, oi, combo, depth):
                         for i3 in third_ix:
                             if fits(sig3, pool.objs[i3][1]):
                                 h3 = h2 + [[name3, [pool.objs[i3][0]]]]
+                                b3 = len(pool.objs)
                                 apply(ctx, pool, name3, fn3, (i3,), h3)
                                 ctx.traces += 1
-                                if not pool.check(ctx, h3, deep=False):
+                                if not pool.check(ctx, h3, deep=False, only=set(pool.reachable((i3,))) | set(range(b3, len(pool.objs)))):
                                     return
     pool.check(ctx, h1 + [["<end of chains>", []]], deep=True)
     ctx.maximum("max_pool_size", len(pool.objs))
@@ -328,14 +354,14 @@ def vacuity(tier, counters, outcomes):
 
 def describe(tier):
     return {
-        "rule": "pool of 16 values (points in 3 representations incl. 24:00, a decimal form, a custom dump format, two "
+        "rule": "pool of 19 values (points in 3 representations incl. 24:00, a decimal form, a custom dump format, two "
                 "truncated points; 5 durations; known/unknown zones; 3 recurrences); %d operations; every first event "
                 "over the initial pool, then every second event with at least one operand taken from the first event's "
                 "results (incl. linked sub-objects), other operands from the initial pool%s; deep slot snapshots of all "
                 "pool objects after every event, string forms and hashes after every chain group" % (
                     len(OPS), "" if tier == "quick" else "; then every unary operation on the second event's results"),
         "bounds": {"depth": 2 if tier == "quick" else 3},
-        "alphabet_sizes": {"operations": len(OPS), "initial_pool": 16, "first_events": len(first_events())},
+        "alphabet_sizes": {"operations": len(OPS), "initial_pool": len(initial_pool()), "first_events": len(first_events())},
         "exhaustive": True,
         "assumptions": ["interleavings of events on unrelated values are not enumerated: operations read only their "
                         "operands and the calendar mode (C15), so they commute"],
